@@ -37,26 +37,30 @@ def fracPart : List Char → Option (List Char × List Char)
     | (ds, rest) => some ('.' :: ds, rest)
   | cs => some ([], cs)
 
+/-- [ minus / plus ] -/
+def sign : List Char → List Char × List Char
+  | '+' :: r => (['+'], r)
+  | '-' :: r => (['-'], r)
+  | r => ([], r)
+
 /-- exp = e [ minus / plus ] 1*DIGIT (optional) -/
 def expPart : List Char → Option (List Char × List Char)
   | e :: cs =>
     if e == 'e' || e == 'E' then
-      let (sign, cs') := match cs with
-        | '+' :: r => (['+'], r)
-        | '-' :: r => (['-'], r)
-        | r => ([], r)
-      match digits cs' with
+      match digits (sign cs).2 with
       | ([], _) => none
-      | (ds, rest) => some (e :: sign ++ ds, rest)
+      | (ds, rest) => some (e :: (sign cs).1 ++ ds, rest)
     else some ([], e :: cs)
   | [] => some ([], [])
 
+/-- [ minus ] -/
+def minus : List Char → List Char × List Char
+  | '-' :: r => (['-'], r)
+  | r => ([], r)
+
 /-- number = [ minus ] int [ frac ] [ exp ] -/
 def number (cs : List Char) : Option (List Char × List Char) :=
-  let (m, cs1) := match cs with
-    | '-' :: r => (['-'], r)
-    | r => ([], r)
-  match intPart cs1 with
+  match intPart (minus cs).2 with
   | none => none
   | some (i, cs2) =>
     match fracPart cs2 with
@@ -64,30 +68,40 @@ def number (cs : List Char) : Option (List Char × List Char) :=
     | some (f, cs3) =>
       match expPart cs3 with
       | none => none
-      | some (e, cs4) => some (m ++ i ++ f ++ e, cs4)
+      | some (e, cs4) => some ((minus cs).1 ++ i ++ f ++ e, cs4)
+
+def isSimpleEscape (e : Char) : Bool :=
+  e == '"' || e == '\\' || e == '/' || e == 'b' || e == 'f' || e == 'n' || e == 'r' || e == 't'
 
 /-- the characters after the opening quote up to the closing quote:
 unescaped = %x20-21 / %x23-5B / %x5D-10FFFF; escape = `\` ( `"` `\` `/` b f n r t / uXXXX ) -/
 def stringBody : List Char → Option (List Char × List Char)
-  | '"' :: cs => some ([], cs)
-  | '\\' :: 'u' :: a :: b :: c :: d :: cs =>
-    if isHex a && isHex b && isHex c && isHex d then
-      match stringBody cs with
-      | some (s, r) => some ('\\' :: 'u' :: a :: b :: c :: d :: s, r)
-      | none => none
-    else none
-  | '\\' :: e :: cs =>
-    if e == '"' || e == '\\' || e == '/' || e == 'b' || e == 'f' || e == 'n' || e == 'r' || e == 't' then
-      match stringBody cs with
-      | some (s, r) => some ('\\' :: e :: s, r)
-      | none => none
-    else none
+  | [] => none
   | c :: cs =>
-    if c.toNat < 0x20 || c == '\\' then none
-    else match stringBody cs with
+    if c == '"' then some ([], cs)
+    else if c == '\\' then
+      match cs with
+      | [] => none
+      | e :: cs1 =>
+        if e == 'u' then
+          match cs1 with
+          | a :: b :: c2 :: d :: cs2 =>
+            if isHex a && isHex b && isHex c2 && isHex d then
+              match stringBody cs2 with
+              | some (s, r) => some ('\\' :: 'u' :: a :: b :: c2 :: d :: s, r)
+              | none => none
+            else none
+          | _ => none
+        else if isSimpleEscape e then
+          match stringBody cs1 with
+          | some (s, r) => some ('\\' :: e :: s, r)
+          | none => none
+        else none
+    else if c.toNat < 0x20 then none
+    else
+      match stringBody cs with
       | some (s, r) => some (c :: s, r)
       | none => none
-  | [] => none
 
 mutual
 /-- value = false / null / true / object / array / number / string, at the head of the input -/
